@@ -669,7 +669,10 @@ sexp sexp_make_context (sexp ctx, size_t size, size_t max_size) {
       sexp_context_heap(res) = sexp_context_heap(ctx);
 #endif
     }
-  if (!res || sexp_exceptionp(res)) return res;
+  if (!res || sexp_exceptionp(res)) {
+    if (ctx) sexp_gc_release1(ctx);
+    return res;
+  }
   sexp_context_parent(res) = ctx;
   sexp_context_name(res) = sexp_context_specific(res) = SEXP_FALSE;
   sexp_context_mark_stack_ptr(res) = NULL;
